@@ -400,6 +400,12 @@ impl Check for C11 {
             "o := {\"id\": \"O\", \"m\": fn () {\nreturn this.id\n}}\nxs := [o.m, \"abc\"->len]\nprint(xs[0]())\nprint(xs[0:1][0]())\nprint(xs[:][0]())\nprint(xs[1:][0]())\nprint((xs + [])[0]())\n",
             "a := {\"id\": \"A\", \"f\": fn () {\nreturn this.id\n}}\nxs := [0, 0]\nxs[0:2] = [a.f, a.f]\nprint(xs[1]())\nys := xs[0:1] + xs[1:2]\nprint(ys[1]())\n",
             "xs := [1, 2, 3]\nxs[0:2] = {\"a\": 8, \"b\": 9}\nprint(xs)\n",
+            "xs := [1, 2, 3, 4, 5]\nxs[1:4] = xs[0:3]\nprint(xs)\n",
+            "xs := [1, 2, 3, 4, 5]\nxs[0:3] = xs[1:4]\nprint(xs)\n",
+            "xs := [1, 2, 3, 4, 5]\nxs[2:5] = xs[0:3]\nprint(xs)\nxs[0:4] = xs[1:5]\nprint(xs)\n",
+            "xs := [1, 2, 3, 4, 5]\nys := xs\nxs[1:3] = ys[2:4]\nprint(xs)\nxs[2:4] = ys[1:3]\nprint(ys)\n",
+            "xs := [[1], [2], [3]]\nxs[1:3] = xs[0:2]\nxs[1][0] = 9\nprint(xs)\n",
+            "s := \"abcde\"\nxs := [0, 0, 0, 0, 0]\nxs[1:4] = s[0:3]\nprint(xs)\nxs[0:2] = xs[3:5]\nprint(xs)\n",
             "xs := [1, 2, 3]\nfn nothing() {\n}\nprint(xs[nothing():])\n",
             "xs := [1, 2, 3]\nprint(xs[:null])\n",
             "xs := [1, 2, 3]\nxs[null:1] = [0]\nprint(xs)\n",
